@@ -341,6 +341,14 @@ pub static CASE_TIMEOUT_S: std::sync::atomic::AtomicU64 = std::sync::atomic::Ato
 pub static RESUME_AT: std::sync::atomic::AtomicU64 = std::sync::atomic::AtomicU64::new(u64::MAX);
 pub static ABORT: std::sync::atomic::AtomicBool = std::sync::atomic::AtomicBool::new(false);
 
+thread_local! {
+    /// seed of the case this thread runs: lets helpers that have no PRNG at hand (rule construction) vary deterministically per case
+    pub static CASE_SALT: std::cell::Cell<u64> = const { std::cell::Cell::new(0) };
+}
+pub fn case_salt() -> u64 {
+    CASE_SALT.with(|c| c.get())
+}
+
 /// Run one case in a fresh OS thread (fresh thread-local slot table, large stack).
 pub fn run_case<F>(case_seed: u64, f: F) -> CaseOut
 where
@@ -351,6 +359,7 @@ where
         .stack_size(256 << 20)
         .spawn(move || {
             let mut rng = Rng::new(case_seed);
+            CASE_SALT.with(|c| c.set(case_seed));
             let o = match guard(|| f(&mut rng)) {
                 Ok(o) => o,
                 Err(p) => {
